@@ -396,6 +396,58 @@ Fixpoint collected (e : env) (target : str) (canonical final : bool) (cfg : list
       else collected e target canonical final r opts
   end.
 
+(* ---- closed forms over the config alone ---------------------------------------------------------- *)
+Definition keep (o alt : option value) : option value :=
+  match o with Some x => Some x | None => alt end.
+
+(* criteria that may depend on the pass (final) but never on the options obtained so far *)
+Definition optfree_crit (c : crit) : bool :=
+  match c_type c with CHost | CUser => false | _ => true end.
+Definition optfree_block (b : block) : bool :=
+  match b_hdr b with HHost _ => true | HMatch cs => forallb optfree_crit cs end.
+(* first block, in file order, that applies in the given pass and sets k *)
+Definition first_obtained_in (e : env) (target : str) (final : bool) (cfg : list block) (k : str) : option value :=
+  match find (fun b => applies e target false final [] b && dmem (block_config (b_body b)) k) cfg with
+  | Some b => dget (block_config (b_body b)) k
+  | None => None
+  end.
+
+(* Match host / user look at two options only: HostName and User.  `oh` / `ou` are the values of
+   these two options obtained so far (None = not yet set). *)
+Definition mini (oh ou : option value) : dict :=
+  match oh with Some v => [(s_hostname, v)] | None => [] end ++
+  match ou with Some v => [(s_user, v)] | None => [] end.
+Definition applies_hu (e : env) (target : str) (canonical final : bool) (oh ou : option value) (b : block) : bool :=
+  applies e target canonical final (mini oh ou) b.
+(* value of k in the first block that applies and sets k, where applicability is decided with the
+   HostName / User values of the earlier applying blocks — a function of the config alone *)
+Fixpoint sel (e : env) (target : str) (canonical final : bool) (cfg : list block) (oh ou : option value) (k : str)
+  : option value :=
+  match cfg with
+  | [] => None
+  | b :: r =>
+      if applies_hu e target canonical final oh ou b then
+        match dget (block_config (b_body b)) k with
+        | Some v => Some v
+        | None => sel e target canonical final r
+                      (keep oh (dget (block_config (b_body b)) s_hostname))
+                      (keep ou (dget (block_config (b_body b)) s_user)) k
+        end
+      else sel e target canonical final r oh ou k
+  end.
+(* IdentityFile values of the applying blocks, same bookkeeping *)
+Fixpoint coll (e : env) (target : str) (canonical final : bool) (cfg : list block) (oh ou : option value) : list str :=
+  match cfg with
+  | [] => []
+  | b :: r =>
+      if applies_hu e target canonical final oh ou b then
+        get_list (block_config (b_body b)) s_identityfile ++
+        coll e target canonical final r
+             (keep oh (dget (block_config (b_body b)) s_hostname))
+             (keep ou (dget (block_config (b_body b)) s_user))
+      else coll e target canonical final r oh ou
+  end.
+
 Inductive Subseq {A : Type} : list A -> list A -> Prop :=
 | S_nil : Subseq [] []
 | S_skip x a b : Subseq a b -> Subseq a (x :: b)
@@ -481,10 +533,11 @@ Definition run_hostnames_v0 (c : list (str * str) * list block) : list Z :=
   | Raise x => [exn_code x]
   end.
 
-(* one case per config: get_hostnames, then one lookup per host *)
+(* one case per config: the parsed dictionary of every block, get_hostnames, then one lookup per host *)
 Definition run_config (c : (str * str * str * str) * list (str * str) * list block * list str) : list Z :=
   let '(t, global, blocks, hosts) := c in
   let hn := run_hostnames (global, blocks) in
+  flat_map (fun b => let r := enc_dict (block_config (b_body b)) in zlen r :: r) (parsed global blocks) ++
   zlen hn :: hn ++ flat_map (fun h => let r := run_lookup (t, global, blocks, h) in zlen r :: r) hosts.
 
 Definition run_glob (c : str * str) : list Z := [if glob (fst c) (snd c) then 1 else 0].
